@@ -26,9 +26,16 @@
 #include "keyfile.h"     /* internal: the full dump reads the struct */
 
 #define MAXOBJ 64
-static econf_file *objs[MAXOBJ];
-static char root[4096];
-static size_t rootlen;
+#include <pthread.h>
+#define TL __thread
+static TL econf_file *objs[MAXOBJ];
+static TL char root[4096];
+static TL size_t rootlen;
+static TL FILE *out;                  /* where this thread's results go */
+static int thread_mode = 0;
+#define printf(...) fprintf(out, __VA_ARGS__)
+#undef putchar
+#define putchar(c) fputc((c), out)
 
 /* ---------- encoding ---------- */
 static char *dec(const char *tok)       /* "-" -> NULL, "x<hex>" -> malloc'd bytes */
@@ -84,17 +91,17 @@ static void clean_root(void)
 {
   nftw(root, rm_cb, 32, FTW_DEPTH | FTW_PHYS);
   mkdir(root, 0755);
-  if (chdir(root)) perror("chdir");
+  if (!thread_mode && chdir(root)) perror("chdir");
 }
 
 
 /* ---------- layered reads: callback policy, fopen log ---------- */
-static int in_lib = 0;                 /* a library call is in progress */
-static char *open_log[256]; static int n_open = 0;
-static char *check_log[256]; static int check_ok[256]; static int n_check = 0;
-static char *reject[64]; static int n_reject = 0;
-static int cb_mode = 0;                /* 0: no callback, 1: reject listed paths */
-static int cb_data_token = 4711; static int cb_data_bad = 0;
+static TL int in_lib = 0;                 /* a library call is in progress */
+static TL char *open_log[256]; static TL int n_open = 0;
+static TL char *check_log[256]; static TL int check_ok[256]; static TL int n_check = 0;
+static TL char *reject[64]; static TL int n_reject = 0;
+static TL int cb_mode = 0;                /* 0: no callback, 1: reject listed paths */
+static TL int cb_data_token = 4711; static TL int cb_data_bad = 0;
 
 FILE *__real_fopen(const char *path, const char *mode);
 FILE *__wrap_fopen(const char *path, const char *mode)
@@ -186,12 +193,12 @@ static void finish_read(int o, econf_err e, econf_file *res)
 }
 
 /* after all handles of a scenario were released: nothing may be left */
-static int started = 0;
+static TL int started = 0;
 static void end_scenario(void)
 {
   if (!started) { started = 1; return; }
 #ifdef __SANITIZE_ADDRESS__
-  if (__lsan_do_recoverable_leak_check())
+  if (!thread_mode && __lsan_do_recoverable_leak_check())
     printf("leak\n");
 #endif
 }
@@ -228,7 +235,7 @@ static int kind_of(const char *k)
   abort();
 }
 
-static int eol = '\n';
+static TL int eol = '\n';
 
 static void do_get(econf_file *kf, int kd, const char *g, const char *k, const char *def)
 {
@@ -367,16 +374,8 @@ static void do_parse(int o, char **t)
   free(path); free(content); free(dl); free(cm); free(real);
 }
 
-int main(int argc, char **argv)
+static void run_stream(FILE *in)
 {
-  if (argc < 2) { fprintf(stderr, "usage: %s root [scenario]\n", argv[0]); return 2; }
-  if (!realpath(argv[1], root)) { mkdir(argv[1], 0755); if (!realpath(argv[1], root)) { perror("root"); return 2; } }
-  rootlen = strlen(root);
-  FILE *in = argc > 2 ? fopen(argv[2], "r") : stdin;
-  if (!in) { perror("scenario"); return 2; }
-  if (chdir(root)) { perror("chdir"); return 2; }
-  setvbuf(stdout, NULL, _IOFBF, 1 << 16);
-
   char *line = NULL; size_t cap = 0; ssize_t n;
   while ((n = getline(&line, &cap, in)) > 0) {
     if (line[n - 1] == '\n') line[--n] = 0;
@@ -388,8 +387,7 @@ int main(int argc, char **argv)
       for (int i = 0; i < MAXOBJ; i++) if (objs[i]) { econf_free(objs[i]); objs[i] = NULL; }
       end_scenario();
       clean_root();
-      econf_reset_security_settings();
-      { const char *none[] = { NULL }; econf_set_conf_dirs(none); }
+      if (!thread_mode) { econf_reset_security_settings(); const char *none[] = { NULL }; econf_set_conf_dirs(none); }
       cb_mode = 0; for (int i = 0; i < n_reject; i++) free(reject[i]); n_reject = 0; cb_data_bad = 0;
       printf("reset\n");
     } else if (!strcmp(c, "newkf")) {
@@ -562,11 +560,53 @@ int main(int argc, char **argv)
     } else {
       printf("driver-error unknown command %s\n", c); exit(3);
     }
-    fflush(stdout);
+    fflush(out);
   }
   for (int i = 0; i < MAXOBJ; i++) if (objs[i]) { econf_free(objs[i]); objs[i] = NULL; }
   end_scenario();
-  fflush(stdout);
+  fflush(out);
   free(line);
+}
+
+struct targ { char rootdir[4096]; char scen[4096]; char *buf; size_t len; };
+static void *thread_main(void *p)
+{
+  struct targ *a = p;
+  mkdir(a->rootdir, 0755);
+  if (!realpath(a->rootdir, root)) return NULL;
+  rootlen = strlen(root);
+  out = open_memstream(&a->buf, &a->len);
+  FILE *in = __real_fopen(a->scen, "r");
+  if (in) { run_stream(in); fclose(in); }
+  fclose(out);
+  return NULL;
+}
+
+/* usage: econf_driver <scratch-root> [scenario-file]
+ *        econf_driver --threads <scratch-root> <scenario-file>...   one thread per file, private sub-roots */
+int main(int argc, char **argv)
+{
+  if (argc >= 4 && !strcmp(argv[1], "--threads")) {
+    int k = argc - 3; thread_mode = 1;
+    mkdir(argv[2], 0755);
+    pthread_t *th = calloc(k, sizeof *th); struct targ *ta = calloc(k, sizeof *ta);
+    for (int i = 0; i < k; i++) {
+      snprintf(ta[i].rootdir, sizeof ta[i].rootdir, "%s/t%d", argv[2], i);
+      snprintf(ta[i].scen, sizeof ta[i].scen, "%s", argv[3 + i]);
+      pthread_create(&th[i], NULL, thread_main, &ta[i]);
+    }
+    for (int i = 0; i < k; i++) pthread_join(th[i], NULL);
+    for (int i = 0; i < k; i++) { fprintf(stdout, "thread %d\n", i); fwrite(ta[i].buf, 1, ta[i].len, stdout); free(ta[i].buf); }
+    return 0;
+  }
+  out = stdout;
+  if (argc < 2) { fprintf(stderr, "usage: %s root [scenario]\n", argv[0]); return 2; }
+  if (!realpath(argv[1], root)) { mkdir(argv[1], 0755); if (!realpath(argv[1], root)) { perror("root"); return 2; } }
+  rootlen = strlen(root);
+  FILE *in = argc > 2 ? __real_fopen(argv[2], "r") : stdin;
+  if (!in) { perror("scenario"); return 2; }
+  if (chdir(root)) { perror("chdir"); return 2; }
+  setvbuf(stdout, NULL, _IOFBF, 1 << 16);
+  run_stream(in);
   return 0;
 }
